@@ -127,6 +127,7 @@ def lifted(e):
     return False
 
 
+REPO = None
 MODULE = None  # the elements module (set by check) for following delegation
 
 
@@ -340,6 +341,95 @@ def operands_not_rebound(chk, mod, EF):
                                    "0.5")
 
 
+def other_number_arms(chk, mod, EF):
+    """(num, num) arms of every other element function: the two constructs
+    that are never exact on Vyxal numbers - `//` / divmod (sympy's are off by
+    one on negative integral quotients with a Rational divisor) and `/`
+    between operands that are not lifted to sympy (two Python ints give a
+    float) - are reported wherever they occur."""
+    n_arm = 0
+    for name, fn in mod.functions.items():
+        if name in FUNCS:
+            continue
+        try:
+            arm, line = num_num_arm(fn)
+        except Exception:  # noqa: BLE001 - shape outside the folding subset
+            continue
+        if arm is None:
+            continue
+        n_arm += 1
+        params = {a.arg for a in fn.args.args if a.arg != "ctx"}
+        bad = []
+        for n in ast.walk(arm):
+            if isinstance(n, ast.BinOp) and isinstance(n.op, ast.FloorDiv) \
+                    and any(isinstance(m, ast.Name) and m.id in params
+                            for m in ast.walk(n)):
+                bad.append((n, "`//` on Vyxal numbers"))
+            elif isinstance(n, ast.Call) and dotted(n.func) == "divmod" \
+                    and any(isinstance(m, ast.Name) and m.id in params
+                            for m in ast.walk(n)):
+                bad.append((n, "builtin divmod on Vyxal numbers"))
+            elif isinstance(n, ast.BinOp) and isinstance(n.op, ast.Div) \
+                    and isinstance(n.left, ast.Name) and isinstance(
+                        n.right, ast.Name) and n.left.id in params \
+                    and n.right.id in params:
+                bad.append((n, "`/` between two unlifted operands (two "
+                               "Python ints give a float)"))
+        if not bad:
+            chk.ob("C07.number-arm-exact-division", f"{name}:(num, num)",
+                   True)
+        for n, why in bad:
+            chk.ob("C07.number-arm-exact-division",
+                   f"{name}:(num, num):{ast.unparse(n)[:40]}", False,
+                   f"the (num, num) arm of {name} computes "
+                   f"`{ast.unparse(n)[:60]}`: {why}", EF, n.lineno,
+                   witness="3 1 2/ (an integer and a non-integral rational "
+                           "with an integral quotient)")
+    chk.unit("(num, num) arms of other element functions", n_arm)
+    # vyxalify(a / b): normalising a quotient only helps when the quotient
+    # was exact - with two Python ints it is a float that nsimplify then
+    # guesses a fraction for
+    n_q = 0
+    for m in (mod, REPO.mod("LazyList")):
+        for fn in ast.walk(m.tree):
+            if not isinstance(fn, ast.FunctionDef):
+                continue
+            sdefs = {}
+            for a in ast.walk(fn):
+                if isinstance(a, ast.Assign):
+                    for t in a.targets:
+                        if isinstance(t, ast.Name):
+                            sdefs.setdefault(t.id, []).append(a.value)
+                elif isinstance(a, (ast.AugAssign, ast.For)) and isinstance(
+                        a.target, ast.Name):
+                    sdefs.setdefault(a.target.id, []).append(None)
+
+            def is_lifted(e):
+                if lifted(e):
+                    return True
+                if isinstance(e, ast.Name) and e.id in sdefs:
+                    return all(d is not None and lifted(d)
+                               for d in sdefs[e.id])
+                return False
+
+            for c in ast.walk(fn):
+                if isinstance(c, ast.Call) and dotted(c.func) == "vyxalify" \
+                        and c.args and isinstance(c.args[0], ast.BinOp) \
+                        and isinstance(c.args[0].op, ast.Div):
+                    n_q += 1
+                    q = c.args[0]
+                    ok = is_lifted(q.left) or is_lifted(q.right)
+                    chk.ob("C07.number-arm-exact-division",
+                           f"{fn.name}:{ast.unparse(c)[:40]}", ok,
+                           f"`{ast.unparse(c)[:60]}` normalises a quotient "
+                           "whose operands are not lifted to sympy: for two "
+                           "Python ints it is a float, and the fraction "
+                           "guessed back from it differs from the quotient "
+                           "for large operands", m.rel, c.lineno,
+                           witness="⟨1000003|5|7⟩, third prefix mean")
+    chk.unit("vyxalify(a / b) sites", n_q)
+
+
 def check(chk, repo, tier):
     chk.trusted_base += ["CPython ast"]
     global MODULE
@@ -376,6 +466,9 @@ def check(chk, repo, tier):
 
     operators_call_their_functions(chk, repo, mod, EF)
     operands_not_rebound(chk, mod, EF)
+    global REPO
+    REPO = repo
+    other_number_arms(chk, mod, EF)
 
     # vyxalify -------------------------------------------------------------------
     helpers = repo.mod("helpers")
